@@ -16,12 +16,13 @@
 EXTENDS Usb2Reset, TLC
 
 CONSTANTS LsVals, VbusVals, DiscVals, FsoVals, LsoVals, BusyVals,   \* input alphabets of the exhaustive run
+          RstVals,                                                   \* {FALSE} or {TRUE, FALSE}: domain reset
           NAdv                                                       \* leaps of 1..NAdv cycles are compared with iteration
 
 Inputs == [ls : LsVals, vbus : VbusVals, disc : DiscVals, fso : FsoVals, lso : LsoVals, busy : BusyVals]
 
 -----------------------------------------------------------------------------
-Tick == \E i \in Inputs : Cycle(i)
+Tick == \E i \in Inputs, r \in RstVals : CycleR(i, r)
 FreeSpec == Init /\ [][Tick]_vars
 
 Edge(from, to, br) ==
